@@ -309,6 +309,6 @@ class C02(HistoryProperty):
             return None
         for ds, got in pending.items():
             n = by_name.get(ds)
-            if n is not None and n.get("cache") != "nocache" and got:
+            if n is not None and n.get("cache") == "recording" and got:  # (only a recording backend shows its stores)
                 return "effect-without-store", {"dataset": ds, "effects_run": [i for i, _ in got]}
         return None
